@@ -30,6 +30,7 @@ case "$prop" in C17) $GO build -modfile=$t/go.mod -race -tags verif -o $t/hv-rac
 case "$prop" in C09) $GO build -modfile=$t/go.mod -o $t/hclfmt github.com/hashicorp/hcl/v2/cmd/hclfmt || { echo "BUILD-FAILED hclfmt"; echo "exit=2"; exit 2; }; export HV_HCLFMT_BIN=$t/hclfmt;; esac
 cd /verif
 VERIF_EVIDENCE_DIR=$t/ev timeout 3000 $t/hv run "$prop" "$tier" > $t/out 2>&1; rc=$?
+cp $t/out /verif/work/sweep/partrial-last-$prop.out 2>/dev/null
 grep -a -E "^(VIOLATION|SUMMARY|KNOWN|INCONCLUSIVE|BUILD-FAILED|BROKEN)" $t/out | cut -c1-300 | head -12
 grep -a -A2 "^VIOLATION" $t/out | grep -a -v "^VIOLATION\|^--" | cut -c1-300 | head -8
 echo "exit=$rc"
